@@ -16,8 +16,8 @@ PY_CORE = "PyLibCore PySrcCore PySrcCoreFacts"                    # succession_d
 PY_CORE2 = PY_CORE + " PyLibCore2 PySrcCore2 PySrcCore2Facts PySrcInitFacts"    # succession_diagram.py: skip_to_minimal, skip_remaining, depth, reclaim_node_data
 PY_MIN = "PyLib PyLibSd PyLibCore PyLibSd2 PySrcSdBase PySrcSdMin PySrcSdMinFacts"   # _sd_algorithms/expand_minimal_spaces.py
 PY_ASEEDS = PY_MIN + " Candidates Blocks ASeeds PySrcSdASeeds PySrcSdASeedsFacts"     # _sd_algorithms/expand_attractor_seeds.py
-EXTRA_IMPORTS = {"C02": PY_SD + " " + PY_CORE2, "C03": PY_SD + " " + PY_ASEEDS, "C04": PY_SD + " " + PY_CORE, "C05": PY_CORE2 + " " + PY_MIN, "C14": PY_CORE2, "C15": PY_SD + " " + PY_TARGET + " " + PY_ASEEDS, "C16": "PyLib PyLibPickle PySrcPickle PySrcPickleFacts " + PY_CORE2,
-                 "C06": PY_SPACE + " " + PY_TARGET, "C10": PY_PLACE, "C19": PY_SD + " " + PY_CORE, "C20": PY_KEY + " " + PY_CORE2}
+EXTRA_IMPORTS = {"C02": PY_SD + " " + PY_CORE2 + " PySrcEndToEnd", "C03": PY_SD + " " + PY_ASEEDS, "C04": PY_SD + " " + PY_CORE, "C05": PY_CORE2 + " " + PY_MIN, "C13": PY_SD + " " + PY_TARGET + " " + PY_ASEEDS + " PySrcTermFacts", "C14": PY_CORE2, "C15": PY_SD + " " + PY_TARGET + " " + PY_ASEEDS, "C16": "PyLib PyLibPickle PySrcPickle PySrcPickleFacts " + PY_CORE2,
+                 "C06": PY_SPACE + " " + PY_TARGET + " PySrcEndToEndControl", "C10": PY_PLACE, "C19": PY_SD + " " + PY_CORE, "C20": PY_KEY + " " + PY_CORE2}
 
 def imports_for(pid):
     extra = EXTRA_IMPORTS.get(pid)
@@ -110,6 +110,8 @@ each once; at the root those fixing every source), root = percolation of the who
  theorems=[("source_expand_one_node", "py_expand_one_node_spec", "translator tie: the function GENERATED from the current text of SuccessionDiagram._expand_one_node (PySrcCore.v; embedding PyLibCore.v) computes Diagram.expand_one for every diagram satisfying the class invariant CoreInv, every oracle for the percolated-net cache, and preserves CoreInv"),
            ("source_ensure_node", "py_ensure_node_spec", "... _ensure_node / _ensure_edge / _update_node_depth compute Diagram.ensure_node"),
            ("source_class_invariant_initially", "init_CoreInv", None),
+           ("source_text_end_to_end_bfs", "py_init_then_expand_bfs_hierarchy", "C02 for the SOURCE TEXT: the object built by the generated __init__ and expanded by the generated public expand_bfs (reporting completion) is the hierarchy of percolated trap spaces"),
+           ("source_text_end_to_end_dfs", "py_init_then_expand_dfs_hierarchy", None),
            ("source_init", "py_init_spec", "translator tie: SuccessionDiagram.__init__ as generated from the source builds the model's initial diagram (root = percolation of the whole space) and establishes the class invariant"),
            ("source_expand_bfs", "py_expand_bfs_spec_all", "translator tie: the function GENERATED from the current text of biobalm/_sd_algorithms/expand_bfs.py (PySrcSd.v, regenerated on every run; embedding PyLibSd.v) equals the model's expand_bfs for every diagram, every limit and every fuel"),
            ("source_expand_dfs", "py_expand_dfs_spec_all", "... and expand_dfs.py the model's expand_dfs"),
@@ -262,6 +264,7 @@ forces it, the final trap space meets the target and every minimal trap space in
            ("source_is_subspace", "py_is_subspace_spec", "translator tie: the function generated from the CURRENT source of space_utils.is_subspace equals the model's subspace"),
            ("source_intersect", "py_intersect_spec", "... and space_utils.intersect the model's intersect"),
            ("control_after_any_plain_history", "control_after_plain_history_sound", "the whole call -- target-directed expansion of ANY plainly reached diagram, then succession control with either setting of skip_feedforward_successions -- reports only interventions that satisfy the property"),
+           ("source_text_end_to_end_control", "py_control_after_any_history_sound", "C06 with the target-directed expansion AS WRITTEN IN THE SOURCE (generated public method), after any history"),
            ("source_public_expand_to_target", "py_api_expand_to_target_spec", None),
            ("source_expand_to_target", "py_expand_to_target_spec_all", "translator tie: the function GENERATED from the current text of biobalm/_sd_algorithms/expand_to_target.py (PySrcSdTarget.v) equals the model's expand_to_target"),
            ("control_after_ANY_history", "control_after_any_history_sound", "the same for EVERY history of operations, skip operations (skip_to_minimal, skip_remaining, minimal-space expansion with skipping) included: the reported interventions are sound on diagrams with skip nodes and parentless minimal-trap nodes"),
@@ -396,7 +399,10 @@ The candidate pipeline's loops (greedy flips, simulation rounds) and the block e
 The attractor-seed expansion terminates within 2 * 3^n + 3 iterations (expand_aseeds_terminates); the source-SCC strategy
 within n + 2 levels at every nesting depth (expand_scc_terminates: levels descend strictly, every nesting level loses a
 free variable), its two assertions can never fire (expand_scc_no_assert) and its edges stay strict (expand_scc_EdgeStrict).""",
- theorems=[("size_bound", "size_bound", None), ("bfs_terminates", "bfs_terminates", None), ("dfs_terminates", "dfs_terminates", None),
+ theorems=[("source_expand_bfs_terminates", "py_expand_bfs_terminates", "the loops of the strategy drivers AS WRITTEN IN THE SOURCE (generated functions, public wrappers included) end within the fuel bound of the model"),
+           ("source_expand_dfs_terminates", "py_expand_dfs_terminates", None), ("source_expand_to_target_terminates", "py_expand_to_target_terminates", None),
+           ("source_expand_minimal_spaces_terminates", "py_expand_minimal_spaces_terminates", None), ("source_expand_attractor_seeds_terminates", "py_expand_attractor_seeds_terminates", None),
+           ("size_bound", "size_bound", None), ("bfs_terminates", "bfs_terminates", None), ("dfs_terminates", "dfs_terminates", None),
            ("target_terminates", "target_terminates", None), ("min_terminates", "min_terminates", None),
            ("step_terminates", "step_terminates", None), ("run_terminates", "run_terminates", None),
            ("raise_depth_fuel_irrelevant", "raise_depth_fuel_irrelevant", "depth propagation stops by itself (acyclicity)"),
